@@ -73,11 +73,14 @@ void vprop_case (VChoices *c, VResult *r)
   /* exact mode (one case in four): a well-formed file plus exactly ONE line that must be rejected without changing the parser's
      state, LF or CRLF endings, with or without a final newline: every error record must carry exactly that line's number */
   if (vc_pick (c, 4) == 0 && nlines > 0) {
-    static const char *bad1[] = { "frobnicate d1, s1", ".frobnicate 1 2", "addbb d1, s1, s2", "x8 addb d1, s1, s2", "nosuchop" };
+    static const char *bad1[] = { "frobnicate d1, s1", ".frobnicate 1 2", "addbb d1, s1, s2", "x8 addb d1, s1, s2", "nosuchop",
+      /* "bad numbers" in directives: a size, alignment or count that is not a number, is negative, or does not fit */
+      ".source one zq1", ".temp -2 zq2", ".dest 2x zq3", ".accumulator 4.5 zq4", ".n mult banana", ".m zero",
+      ".n 99999999999", ".param four zq6", ".const 0x zq7 1" };   /* (a bad alignment is reported too, but the variable is declared: it changes the state) */
     int at = 1 + (int) vc_pick (c, (uint32_t) nlines), k, want;
     int use_crlf = (int) vc_pick (c, 2), fnl = (int) vc_pick (c, 2);
     extern int c14_last_error_lines[8];
-    insert_line (at, (char *) bad1[vc_pick (c, 5)]);
+    insert_line (at, (char *) bad1[vc_pick (c, 14)]);
     want = at + 1;
     len = 0;
     for (i = 0; i < nlines && len + 4200 < sizeof out; i++)
